@@ -313,8 +313,13 @@ func main() {
 		for how, list := range map[string][]wire{"decoded from a reversed wire list": rev, "decoded from a wire list naming a validator twice": dup} {
 			enc, err := rlp.EncodeToBytes(list)
 			var dec pos.Validators
-			if err == nil {
-				err = rlp.DecodeBytes(enc, &dec)
+			if pv := core.Catch(func() {
+				if err == nil {
+					err = rlp.DecodeBytes(enc, &dec)
+				}
+			}); pv != nil {
+				c.Violation("panic/"+how, ws, "weights %v %s: decoding panicked although the listed set is a valid one: %v", ws, how, pv)
+				continue
 			}
 			if err != nil {
 				continue // refusing such a list is fine
